@@ -249,7 +249,10 @@ def scenarios(which):
             b = define("def k(x):\n    return ('b', x)\n", "k", "modk5")
             ca, cb = mem5.cache(a), mem5.cache(b)
             ca(1); cb(1)
-            known["K5"] = ca(1) != ("a", 1)
+            r5 = (ca(1), cb(1), ca(1))
+            cases += 1
+            if r5 != (("a", 1), ("b", 1), ("a", 1)):
+                return dict(violation=True, cases=cases, what="two live definitions under one name: the calls a, b, a returned %r" % (r5,), witness="a = def k(x): ('a', x); b = def k(x): ('b', x); ca(1); cb(1); then ca(1), cb(1), ca(1)")
 
         # ---------------- C05: crash states, fresh process, with and without expires_after
         if which in ("all", "C05"):
